@@ -26,7 +26,7 @@ func (c09) Meta() core.Meta {
 		Rule: "case i = f(seed,i): XML/JSON-shaped Map (attribute-prefixed and text-key entries with scalar values, nulls, lists of maps/scalars, leaves under 2-3 list levels separated by keys, no list directly in a list; in 1/4 of the cases arbitrary keys including \"\", \".\", \"a.b\", \"[0]\", \"*\") x {attr prefix - @ attr_ empty} x {key prefix # %} x no-attributes {absent,false,true} x dot-notation. Monitors: multiset of (path,value) from LeafNodes == independent walker (exactly once); LeafPaths/LeafValues == projections for the same option; no-attributes == leaves of the Map with attribute entries removed and the text-key segment dropped; for clean keys every [N]-form path resolves through ValuesForPath to exactly [value]; j2x.JsonLeafNodes agrees. Non-trivial: >=3 leaves and a list level; distinct by hash(map, options).",
 		Assumptions: []string{"independent walker written from the LeafNodes documentation", "path text is compared only for Maps whose keys are free of . [ * and non-empty (the docs do not define how other keys are written in a path); values and counts are compared always"},
 		Anchors:     []string{"Map.LeafNodes", "getLeafNodes", "Map.LeafPaths", "Map.LeafValues", "LeafUseDotNotation", "j2x.JsonLeafNodes", "valuesForArray"},
-		Floors:      map[string]int64{"resolution:paths": 20000, "noattr:removed-something": 500, "dotnotation": 500, "arbitrary-keys": 1000, "leaf-under-2-lists": 300, "emptykey-below-root": 100},
+		Floors:      map[string]int64{"resolution:paths": 20000, "noattr:removed-something": 500, "dotnotation": 500, "arbitrary-keys": 1000, "leaf-under-2-lists": 300, "emptykey-below-root": 100, "list>=11-members": 300},
 	}
 }
 
@@ -113,6 +113,26 @@ func hasEmptyKey(v interface{}, belowRoot bool, depth int) (any, below bool) {
 	return
 }
 
+func maxListLen(v interface{}) int {
+	n := 0
+	switch t := v.(type) {
+	case map[string]interface{}:
+		for _, e := range t {
+			if x := maxListLen(e); x > n {
+				n = x
+			}
+		}
+	case []interface{}:
+		n = len(t)
+		for _, e := range t {
+			if x := maxListLen(e); x > n {
+				n = x
+			}
+		}
+	}
+	return n
+}
+
 func listDepth(v interface{}) int {
 	d := 0
 	switch t := v.(type) {
@@ -187,6 +207,9 @@ func (c09) Case(c *core.Ctx) {
 			return m
 		default:
 			n := r.Intn(4)
+			if r.Intn(12) == 0 {
+				n = 9 + r.Intn(30) // two-digit subscripts
+			}
 			l := jv.L{}
 			for i := 0; i < n; i++ {
 				v := gen(depth - 1)
@@ -212,6 +235,9 @@ func (c09) Case(c *core.Ctx) {
 	}
 	if listDepth(root) >= 2 {
 		c.Count("leaf-under-2-lists")
+	}
+	if maxListLen(root) >= 11 {
+		c.Count("list>=11-members")
 	}
 	dot := r.Intn(4) == 0
 
